@@ -151,6 +151,21 @@ Proof.
     eexists. split; vm_compute; reflexivity.
 Qed.
 
+(* ... and so is a graph in which a task lists ONE dependency TWICE (depends_on naming a test by its path and by a predicate
+   that matches it: resolve_tests_dependencies keeps both edges): nothing above asks for duplicate-free lists, the task
+   becomes runnable when that dependency and the other one have completed, and the run ends *)
+Example C01_witness_duplicate_dependency :
+  let g := [mkTask KTest [5; 6] [] []; mkTask KTest [5; 7] [] []; mkTask KTest [5; 8] [0; 0; 1] []] in
+  wf g (fun i => i) /\
+  exists ms s, run g 2 false (init g 2) ms = Some s /\ finished g s = true.
+Proof.
+  split.
+  - constructor; intros i d Hi Hd; do 3 (destruct i as [|i]; simpl in *; [intuition Lia.lia|]); Lia.lia.
+  - exists [MTake 0 Run; MTake 1 Run; MFinish 0 ResSuccess; MMain 0; MFinish 1 ResSuccess; MMain 1; MTake 2 Run;
+            MFinish 2 ResSuccess; MMain 2].
+    eexists. split; vm_compute; reflexivity.
+Qed.
+
 (* non-vacuity of the project-level theorems: a project with a cross-suite diamond of depends_on edges has a graph and
    its depends_on relation is ranked *)
 Example C01_witness_project :
